@@ -324,10 +324,8 @@ def _directive_probes(pm, pred):
             continue
         pred_arg_names = {a["name"] for a in d["args"]}
         for a in src_dirs.get(d["name"], {"args": []})["args"]:
-            if a["name"] not in pred_arg_names and M.get_type(pred, M.named(a["type"])) is not None or (
-                a["name"] not in pred_arg_names and M.named(a["type"]) in M.SPECIFIED_SCALARS
-            ):
-                bad.append("{ __typename @%s(%s: null) }" % (d["name"], a["name"]))
+            if a["name"] not in pred_arg_names:  # renamed or removed (its type was hidden)
+                bad.append("{ __typename @%s(%s: %s) }" % (d["name"], a["name"], "[]" if "[" in a["type"] else "null"))
         for a in d["args"]:
             tn = M.named(a["type"])
             t = M.get_type(pred, tn)
